@@ -266,6 +266,8 @@ func Execute(t *testing.T, h Harness, plan *Plan) *Result {
 			}
 		})
 	}()
+	// the run is over and nothing of it executes again: release what its (killed) incarnations left open
+	simrt.ReleaseResources()
 	res.WallUs = time.Since(wall).Microseconds()
 	if tape != nil && !plan.Replay {
 		rec := tape.Record()
